@@ -452,7 +452,7 @@ def run(ctx: Any) -> None:
                 "distinct by (calls); non-trivial = contains a failure call followed by at least one more call")
 
     # ---------------------------------------------------------------- histories
-    n_hist = 300 if thorough else 80
+    n_hist = 220 if thorough else 80
     hists: list[list[dict[str, Any]]] = []
     for label in FAULTS:                      # every failure kind at every position of a short history
         for pos in range(3):
@@ -508,13 +508,24 @@ def run(ctx: Any) -> None:
         seq_cases.append(("[" + "; ".join(model_call(c) for c in calls) + "]", "[" + "; ".join("Obs " + _ct(t) for t in traces) + "]"))
         if hi < 3:
             ctx.sample({"calls": calls, "traces": traces})
-        if thorough and hi < 40:
+        if thorough and hi < 30:
             sub = _subprocess_history(real, calls)
             if sub is not None:
+                # Compared up to and INCLUDING the first call that -- alone, on the real code -- leaves the connection dirty.
+                # What later calls read on a desynchronised connection is unspecified (model: Desync) and legitimately
+                # transport dependent: when serve() has ended an in-process serve thread leaves the pipe open (stale bytes
+                # / blocked) while a worker PROCESS exits (EOF / broken pipe).  The same holds for a call that itself
+                # ends the serve loop: pipe "blocked" vs subprocess TransportError.
                 for i, (a, b) in enumerate(zip(sub, traces)):
-                    if a != b and not (a and b and a[-1][0] in ("error", "client_exc", "blocked") and b[-1] == ["blocked"]):
+                    serve_ended = b[-1:] == [["blocked"]] and a[-1:] and a[-1][0] in ("error", "client_exc", "blocked")
+                    if a != b and not serve_ended:
                         ctx.violation("subprocess-differs-from-pipe", "a history observes differently over a subprocess worker", {"calls": calls, "index": i, "subprocess": a, "pipe": b})
                         break
+                    if leaves_dirty(fresh[i]):
+                        ctx.tally("subprocess_compare", "stopped at the first call that leaves the connection dirty")
+                        break
+                else:
+                    ctx.tally("subprocess_compare", "whole history identical")
     ctx.log(f"histories: {len(hists)} x {len(KINDS)} transports, {real.runs} real calls in {time.time() - t0:.1f}s")
 
     # ---------------------------------------------------------------- single-call views (trace + connection state)
